@@ -1026,7 +1026,7 @@ Definition entry_log (c : tr_cfg) (d : path) (e : tr_entry) (sc : tr_sched) (st 
   match tr_create c d (tr_payload c e) [] st with
   | (NErr, _) => []
   | (NOk _, st1) =>
-    if tr_has_subs e then match tr_arch_entry ahdr e sc with Some f => arch_log c e sc ln f | None => [] end
+    if tr_json_names c && tr_has_subs e then match tr_arch_entry ahdr e sc with Some f => arch_log c e sc ln f | None => [] end
     else if te_isdir e then dir_log c e ln
     else if tr_json_names c && (0 <? tr_target_size d ln (tr_payload c e) st1) then
       match tr_resume_run hx c e sc (tr_old_content st1 (tr_leaf d ln (tr_payload c e))) with
@@ -1274,4 +1274,368 @@ Proof.
     destruct (entry_fail c d e sc post st1 all L Hbe Hdj1 He) as (A & B & C) end.
   fold n2 in A, B, C. rewrite run_stuck by exact A. split; assumption.
 Qed.
+
+(* ---------- the shape of the transcript ---------- *)
+Definition tg (l : list (bool * msg)) : list tr_tag := map (fun dm => tr_tag_of digest (snd dm)) l.
+
+Lemma tg_app a b : tg (a ++ b) = tg a ++ tg b.
+Proof. apply map_app. Qed.
+
+Lemma acc_app pipe : forall l1 q l2, tr_accepts_from pipe q (l1 ++ l2) =
+  match tr_accepts_from pipe q l1 with Some q' => tr_accepts_from pipe q' l2 | None => None end.
+Proof.
+  induction l1 as [|t l1 IH]; intros q l2; [reflexivity|]. cbn [app tr_accepts_from].
+  destruct (tr_delta pipe q t); [apply IH | reflexivity].
+Qed.
+
+Definition between_q (q : tr_q) : Prop := q = Q2 \/ q = Q4.
+
+Lemma tag_reply c ln sz : tr_tag_of digest (name_reply c ln sz) = TgSucc.
+Proof. unfold name_reply. destruct (tr_json_names c); reflexivity. Qed.
+
+Lemma tg_frames dir : forall fs : list (list byte), all_nonempty fs = true ->
+  tg (tag_out dir (map (TrData digest) fs)) = map (fun _ => TgData) fs.
+Proof.
+  induction fs as [|f fs IH]; intro Hne; [reflexivity|].
+  cbn [all_nonempty forallb] in Hne. apply andb_true_iff in Hne as [Hf Hr]. destruct (nonempty_cons f Hf) as (x & fr & ->).
+  cbn [map tr_tag_out tg snd tr_tag_of]. f_equal. apply (IH Hr).
+Qed.
+
+Lemma tg_acks : forall (fs : list (list byte)) steps, tg (tag_out false (fst (acks_go fs steps))) = map (fun _ => TgAck) fs.
+Proof.
+  induction fs as [|f fs IH]; intro steps; [reflexivity|].
+  cbn [acks_go]. specialize (IH (tl steps)). destruct (acks_go fs (tl steps)) as [a s']. cbn [fst] in *.
+  cbn [map tr_tag_out tg snd tr_tag_of]. f_equal. exact IH.
+Qed.
+
+Lemma tg_ints (l : list N) : tg (tag_out false (map (TrSuccInt digest) l)) = map (fun _ => TgSucc) l.
+Proof. induction l as [|x l IH]; [reflexivity|]. cbn [map tr_tag_out tg snd tr_tag_of]. f_equal. exact IH. Qed.
+
+Lemma acc_datas {A} : forall (l : list A) q rest, q = Q6 \/ q = Q7 ->
+  tr_accepts_from true q (map (fun _ => TgData) l ++ TgFinish :: rest) = tr_accepts_from true Q8 rest.
+Proof.
+  induction l as [|x l IH]; intros q rest Hq; cbn [map app tr_accepts_from].
+  - destruct Hq as [-> | ->]; reflexivity.
+  - assert (Hd : tr_delta true q TgData = Some Q7) by (destruct Hq as [-> | ->]; reflexivity).
+    rewrite Hd. apply IH. right; reflexivity.
+Qed.
+
+Lemma acc_ackl {A} : forall (l : list A) rest,
+  tr_accepts_from true Q8 (map (fun _ => TgAck) l ++ rest) = tr_accepts_from true Q8 rest.
+Proof. induction l as [|x l IH]; intro rest; [reflexivity|]. cbn [map app tr_accepts_from tr_delta]. apply IH. Qed.
+
+Lemma acc_succs {A} : forall (l : list A) q rest, q = Q8 \/ q = Q9 ->
+  tr_accepts_from true q (map (fun _ => TgSucc) l ++ TgSucc :: rest) = tr_accepts_from true Q9 rest.
+Proof.
+  induction l as [|x l IH]; intros q rest Hq; cbn [map app tr_accepts_from].
+  - destruct Hq as [-> | ->]; reflexivity.
+  - assert (Hd : tr_delta true q TgSucc = Some Q9) by (destruct Hq as [-> | ->]; reflexivity).
+    rewrite Hd. apply IH. right; reflexivity.
+Qed.
+
+Lemma acc_dir c e ln q rest : between_q q ->
+  tr_accepts_from (tr_pipeline c) q (tg (dir_log c e ln) ++ rest) = tr_accepts_from (tr_pipeline c) Q4 rest.
+Proof.
+  intro Hq. unfold dir_log. cbn [tg map snd tr_tag_of app tr_accepts_from]. rewrite tag_reply.
+  destruct Hq as [-> | ->]; reflexivity.
+Qed.
+
+(* the data of a file: echo, [COMP], frames, finish flag, acks, final acks, MD5 - then the digest reply *)
+Lemma tg_tail c e sc : tg (tail_log c e sc) =
+  [TgSucc] ++ tg (tag_out true (snd (compress c e sc)))
+  ++ map (fun _ => TgData) (frames c e sc) ++ [TgFinish]
+  ++ map (fun _ => TgAck) (frames c e sc) ++ [TgAck]
+  ++ map (fun _ => TgSucc) (prefinal_of e sc) ++ [TgSucc] ++ [TgMd5].
+Proof.
+  unfold tail_log. cbv zeta. rewrite !tg_app, !tag_out_app, !tg_app.
+  rewrite (tg_frames true (frames c e sc) (frames_nonempty _ _ _)), tg_acks, tg_ints.
+  cbn [tg map snd tr_tag_of tr_tag_out]. unfold finish_ack. cbn [tr_tag_of].
+  repeat rewrite <- app_assoc. reflexivity.
+Qed.
+
+Lemma acc_tail c e sc rest :
+  tr_accepts_from true Q5 (tg (tail_log c e sc) ++ TgSucc :: rest) = tr_accepts_from true Q2 rest.
+Proof.
+  rewrite tg_tail. repeat rewrite <- app_assoc. cbn [app tr_accepts_from tr_delta].
+  assert (Hc : exists q', (q' = Q6 \/ q' = Q7) /\ forall r,
+     tr_accepts_from true Q6 (tg (tag_out true (snd (compress c e sc))) ++ r) = tr_accepts_from true q' r).
+  { unfold tr_compress. destruct (tr_is_compress_fixed c (te_size e)) as [[|] cp]; cbn [snd].
+    - exists Q6. split; [left; reflexivity | reflexivity].
+    - exists Q7. split; [right; reflexivity | reflexivity]. }
+  destruct Hc as (q' & Hq' & Hc). rewrite Hc, (acc_datas _ _ _ Hq'), acc_ackl.
+  cbn [tr_accepts_from tr_delta]. rewrite acc_succs by (left; reflexivity). reflexivity.
+Qed.
+
+Lemma acc_file_v2 c e sc ln q rest : tr_pipeline c = true -> between_q q ->
+  tr_accepts_from (tr_pipeline c) q (tg (file_log_v2 c e sc ln) ++ rest) = tr_accepts_from (tr_pipeline c) Q2 rest.
+Proof.
+  intros Hp Hq. rewrite Hp. unfold file_log_v2. rewrite !tg_app. repeat rewrite <- app_assoc.
+  cbn [tg map snd tr_tag_of app tr_accepts_from]. rewrite tag_reply.
+  assert (H1 : tr_delta true q TgName = Some Q3) by (destruct Hq as [-> | ->]; reflexivity).
+  rewrite H1. cbn [tr_delta]. fold (tg (tail_log c e sc)). apply acc_tail.
+Qed.
+
+Lemma acc_arch c e sc ln f q rest : tr_pipeline c = true -> between_q q ->
+  tr_accepts_from (tr_pipeline c) q (tg (arch_log c e sc ln f) ++ rest) = tr_accepts_from (tr_pipeline c) Q2 rest.
+Proof.
+  intros Hp Hq. rewrite Hp. unfold arch_log. rewrite !tg_app. repeat rewrite <- app_assoc.
+  cbn [tg map snd tr_tag_of app tr_accepts_from]. rewrite tag_reply.
+  assert (H1 : tr_delta true q TgName = Some Q3) by (destruct Hq as [-> | ->]; reflexivity).
+  rewrite H1. cbn [tr_delta]. fold (tg (tail_log c f sc)). apply acc_tail.
+Qed.
+
+(* the resume exchange: [SIZE] HASH* Over hash-ack* *)
+Lemma tg_hashes : forall hl : list Resume.hmsg, (forall m, In m hl -> m <> Resume.Over) ->
+  tg (tag_out true (map hmsg_of hl)) = map (fun _ => TgHash) hl.
+Proof.
+  induction hl as [|m hl IH]; intro Hall; [reflexivity|]. cbn [map tr_tag_out tg snd].
+  destruct m as [s h|]; [|exfalso; apply (Hall Resume.Over); [left; reflexivity | reflexivity]].
+  cbn [tr_hmsg tr_tag_of]. f_equal. apply IH. intros m Hm. apply Hall. right. exact Hm.
+Qed.
+
+Lemma tg_hacks : forall acks : list Resume.ack, tg (tag_out false (map hack_of acks)) = map (fun _ => TgHack) acks.
+Proof. induction acks as [|a acks IH]; [reflexivity|]. cbn [map tr_tag_out tg snd tr_hack tr_tag_of]. f_equal. exact IH. Qed.
+
+Lemma acc_hashes {A} : forall (l : list A) q rest, q = Q4 \/ q = Q5 \/ q = QH ->
+  tr_accepts_from true q (map (fun _ => TgHash) l ++ TgOver :: rest) = tr_accepts_from true QO rest.
+Proof.
+  induction l as [|x l IH]; intros q rest Hq; cbn [map app tr_accepts_from].
+  - destruct Hq as [-> | [-> | ->]]; reflexivity.
+  - assert (Hd : tr_delta true q TgHash = Some QH) by (destruct Hq as [-> | [-> | ->]]; reflexivity).
+    rewrite Hd. apply IH. right; right; reflexivity.
+Qed.
+
+Lemma acc_hacks {A} : forall (l : list A) rest,
+  tr_accepts_from true QO (map (fun _ => TgHack) l ++ rest) = tr_accepts_from true QO rest.
+Proof. induction l as [|x l IH]; intro rest; [reflexivity|]. cbn [map app tr_accepts_from tr_delta]. apply IH. Qed.
+
+Lemma acc_resume c e sc ln tsize o hl q rest : tr_pipeline c = true -> between_q q ->
+  Resume.o_hashes o = hl ++ [Resume.Over] -> (forall m, In m hl -> m <> Resume.Over) ->
+  tr_accepts_from (tr_pipeline c) q (tg (resume_log c e sc ln tsize o) ++ rest) = tr_accepts_from (tr_pipeline c) Q2 rest.
+Proof.
+  intros Hp Hq Eh Hall. rewrite Hp. unfold resume_log. cbv zeta. rewrite Eh, map_app, !tag_out_app, !tg_app.
+  rewrite (tg_hashes hl Hall), tg_hacks. repeat rewrite <- app_assoc.
+  cbn [tg map snd tr_tag_of tr_tag_out tr_hmsg app tr_accepts_from]. rewrite tag_reply.
+  assert (H1 : tr_delta true q TgName = Some Q3) by (destruct Hq as [-> | ->]; reflexivity).
+  rewrite H1. cbn [tr_delta].
+  assert (Hpre : exists qa, (qa = Q4 \/ qa = Q5 \/ qa = QH) /\ forall r,
+     tr_accepts_from true Q4 (map (fun dm => tr_tag_of digest (snd dm)) (map (fun m : msg => (true, m)) (tr_resume_pre digest c e)) ++ r) =
+     tr_accepts_from true qa r).
+  { unfold tr_resume_pre. destruct (tc_proto c <? Consts.tr_proto_resume_nosize).
+    - exists Q5. split; [right; left; reflexivity | reflexivity].
+    - exists Q4. split; [left; reflexivity | reflexivity]. }
+  destruct Hpre as (qa & Hqa & Hpre). rewrite Hpre, (acc_hashes _ _ _ Hqa), acc_hacks.
+  cbn [tr_accepts_from tr_delta]. fold (tg (tail_log c (tr_rem_entry e (Resume.o_msend o)) sc)). apply acc_tail.
+Qed.
+
+(* legacy exchange: DATA SUCC DATA SUCC ... MD5 *)
+Lemma tag_data_any f : tr_tag_of digest (TrData digest f) = TgData \/ tr_tag_of digest (TrData digest f) = TgFinish.
+Proof. destruct f; [right | left]; reflexivity. Qed.
+
+Lemma acc_v1_log c e : forall chs ch rest,
+  tr_accepts_from false Q11 (tg (v1_log c e ch chs) ++ rest) = tr_accepts_from false Q10 rest.
+Proof.
+  induction chs as [|ch2 chs IH]; intros ch rest; cbn [v1_log tg map snd app tr_tag_of tr_accepts_from tr_delta]; [reflexivity|].
+  destruct (tr_v1_payload zl c ch2); apply IH.
+Qed.
+
+Lemma acc_file_v1 c e sc ln q rest : tr_pipeline c = false -> between_q q ->
+  tr_accepts_from (tr_pipeline c) q (tg (file_log_v1 c e sc ln) ++ rest) = tr_accepts_from (tr_pipeline c) Q2 rest.
+Proof.
+  intros Hp Hq. rewrite Hp. unfold file_log_v1. rewrite !tg_app. repeat rewrite <- app_assoc.
+  cbn [tg map snd tr_tag_of app tr_accepts_from]. rewrite tag_reply.
+  assert (H1 : tr_delta false q TgName = Some Q3) by (destruct Hq as [-> | ->]; reflexivity).
+  rewrite H1. cbn [tr_delta]. unfold v1_data_log. destruct (tr_v1_chunks e sc) as [|ch chs].
+  - reflexivity.
+  - cbn [map snd app tr_accepts_from tr_tag_of].
+    destruct (tr_v1_payload zl c ch); cbn [tr_delta]; apply acc_v1_log.
+Qed.
+
+Lemma acc_entry c d e sc st ln q rest : between_q q ->
+  exists q', between_q q' /\
+    tr_accepts_from (tr_pipeline c) q (tg (entry_log c d e sc st ln) ++ rest) = tr_accepts_from (tr_pipeline c) q' rest.
+Proof.
+  intro Hq. unfold entry_log.
+  assert (Hsame : exists q', between_q q' /\ tr_accepts_from (tr_pipeline c) q (tg [] ++ rest) = tr_accepts_from (tr_pipeline c) q' rest)
+    by (exists q; split; [exact Hq | reflexivity]).
+  destruct (tr_create c d (tr_payload c e) [] st) as [[l1|] st1]; [|exact Hsame].
+  destruct (tr_json_names c && tr_has_subs e) eqn:Hsub.
+  - apply andb_true_iff in Hsub as [Hj _]. pose proof (pipeline_of_json_names c Hj) as Hp.
+    destruct (tr_arch_entry ahdr e sc) as [f|]; [|exact Hsame].
+    exists Q2. split; [left; reflexivity|]. apply (acc_arch c e sc ln f q rest Hp Hq).
+  - destruct (te_isdir e).
+    + exists Q4. split; [right; reflexivity|]. apply (acc_dir c e ln q rest Hq).
+    + destruct (tr_json_names c && (0 <? tr_target_size d ln (tr_payload c e) st1)) eqn:E2.
+      * apply andb_true_iff in E2 as [Hj Hts]. pose proof (pipeline_of_json_names c Hj) as Hp.
+        destruct (target_size_pos d ln (tr_payload c e) st1 Hts) as [Hold _].
+        destruct (tr_resume_run hx c e sc (tr_old_content st1 (tr_leaf d ln (tr_payload c e)))) as [o| | | |] eqn:Er; try exact Hsame.
+        destruct (resume_run_inv hx c e sc _ o Hj Hold Er) as (hs & rst & ms & Hsend & _ & _ & Ho).
+        destruct (send_hashes_shape B hx _ _ _ _ _ _ _ Hsend) as (hl & Ehs & Hall).
+        exists Q2. split; [left; reflexivity|].
+        apply (acc_resume c e sc ln _ o hl q rest Hp Hq); [rewrite Ho; cbn [Resume.o_hashes]; exact Ehs | exact Hall].
+      * destruct (tr_pipeline c) eqn:Hp.
+        -- exists Q2. split; [left; reflexivity|]. pose proof (acc_file_v2 c e sc ln q rest Hp Hq) as Hx. rewrite Hp in Hx. exact Hx.
+        -- exists Q2. split; [left; reflexivity|]. pose proof (acc_file_v1 c e sc ln q rest Hp Hq) as Hx. rewrite Hp in Hx. exact Hx.
+Qed.
+
+Lemma acc_all c d : forall ess st per q rest, between_q q ->
+  exists q', between_q q' /\
+    tr_accepts_from (tr_pipeline c) q (tg (all_log c d ess st per) ++ rest) = tr_accepts_from (tr_pipeline c) q' rest.
+Proof.
+  induction ess as [|[e sc] ess IH]; intros st per q rest Hq; [exists q; split; [exact Hq | reflexivity]|].
+  destruct per as [|ln per]; [exists q; split; [exact Hq | reflexivity]|].
+  cbn [all_log]. rewrite tg_app, <- app_assoc.
+  destruct (acc_entry c d e sc st ln q (tg (match spec_entry c d e sc st with Some (_, st') => all_log c d ess st' per | None => [] end) ++ rest) Hq)
+    as (q1 & Hq1 & ->).
+  destruct (spec_entry c d e sc st) as [[l1 st1]|]; [apply IH, Hq1 | exists q1; split; [exact Hq1 | reflexivity]].
+Qed.
+
+Theorem shape_ok c d ess f0 per all : tr_shape_ok digest (tr_pipeline c) (full_log c d ess f0 per all) = true.
+Proof.
+  unfold tr_shape_ok, full_log. fold (tg ([(true, TrNum digest (N.of_nat (length ess))); (false, TrSuccInt digest (N.of_nat (length ess)))]
+    ++ all_log c d ess (init_state f0) per ++ [(tc_upload c, TrExit digest all)])).
+  rewrite tg_app. cbn [tg map snd tr_tag_of app tr_accepts_from tr_delta]. fold (tg (all_log c d ess (init_state f0) per ++ [(tc_upload c, TrExit digest all)])).
+  rewrite tg_app. destruct (acc_all c d ess (init_state f0) per Q2 (tg [(tc_upload c, TrExit digest all)]) (or_introl eq_refl)) as (q' & Hq' & ->).
+  destruct Hq' as [-> | ->]; reflexivity.
+Qed.
+
+(* ---------- the composed statements ---------- *)
+Lemma nodup_fold_add per : forall names, NoDup names -> NoDup (fold_left tr_add_name per names).
+Proof. induction per as [|n per IH]; intros names Hn; [exact Hn|]. cbn [fold_left]. apply IH, nodup_add_name, Hn. Qed.
+
+Lemma items_ok c items : tr_bytes_ok items -> tr_wf c (map fst items) -> tr_hdrs_ok ahdr aparse (map fst items) ->
+  Forall (fun es => item_ok c (fst es)) items.
+Proof.
+  intros Hb (_ & _ & Hw & _) Hh. unfold tr_bytes_ok in Hb. rewrite Forall_forall in Hb. apply Forall_forall. intros [e sc] Hin. cbn [fst].
+  assert (He : In e (map fst items)) by (apply in_map_iff; exists (e, sc); auto).
+  split; [apply (Hb (e, sc) Hin)|]. split; [apply Hw, He | intros s Hs; apply (Hh e s He Hs)].
+Qed.
+
+Notation safe := (resume_safe hx ahdr aparse).
+
+Theorem transfer_ok c d items f0 per all stf : table_ok c -> tr_bytes_ok items ->
+  stat f0 d = SFound Dir -> tr_wf c (map fst items) -> tr_hdrs_ok ahdr aparse (map fst items) ->
+  safe c d items (init_state f0) ->
+  spec c d items (init_state f0) [] = Some (per, all, stf) ->
+  forall fuel, (fuel_items c d items f0 <= fuel)%nat ->
+  tr_outcome_ok c d f0 items (run_items fuel c d items f0).
+Proof.
+  intros Ht Hb Hd Hwf Hh Hsafe Hs fuel Hf.
+  rewrite (run_complete c d items f0 per all stf Ht (items_ok c items Hb Hwf Hh) Hs fuel Hf).
+  destruct (spec_tree hx ahdr aparse c d f0 items per all stf Hd Hwf Hh Hsafe Hs) as (A1 & A2 & A3 & A4 & A5 & A6).
+  unfold tr_outcome_ok, final_conf. cbn [tr_sender_ok tr_receiver_ok tr_quiet cf_s cf_r cf_s2r cf_r2s cf_log ss_phase rs_phase ss_names rs_names rs_st].
+  repeat (split; [reflexivity|]). exists per, all. repeat (split; [reflexivity|]).
+  split; [|split; [unfold full_log; eexists; rewrite app_assoc; reflexivity | apply shape_ok]].
+  unfold tr_tree_at. split; [rewrite map_length; exact A1|]. split.
+  { intro ln. rewrite A2, in_fold_add. cbn. tauto. }
+  split; [rewrite A2; apply nodup_fold_add; constructor|]. auto.
+Qed.
+
+Lemma quiet_stuck c d (cf : conf) : tr_quiet digest cf = true -> stepc c d cf = None.
+Proof. unfold tr_quiet, tr_step. destruct (cf_s2r digest cf); [|discriminate]. destruct (cf_r2s digest cf); [reflexivity | discriminate]. Qed.
+
+Theorem success_implies_ok c d items f0 : table_ok c -> tr_bytes_ok items ->
+  Forall (fun es => te_isdir (fst es) = true -> tr_json c = true) items ->
+  stat f0 d = SFound Dir -> tr_wf c (map fst items) -> tr_hdrs_ok ahdr aparse (map fst items) ->
+  safe c d items (init_state f0) ->
+  forall fuel, (fuel_items c d items f0 <= fuel)%nat \/ tr_quiet digest (run_items fuel c d items f0) = true ->
+  tr_sender_ok digest (run_items fuel c d items f0) = true \/
+  tr_receiver_ok digest (run_items fuel c d items f0) = true ->
+  tr_outcome_ok c d f0 items (run_items fuel c d items f0).
+Proof.
+  intros Ht Hb Hdj Hd Hwf Hh Hsafe fuel Hf Hok.
+  (* at rest, more fuel changes nothing: reduce to the case of enough fuel *)
+  assert (Hrun : exists fuel', (fuel_items c d items f0 <= fuel')%nat /\ run_items fuel' c d items f0 = run_items fuel c d items f0).
+  { destruct Hf as [Hf|Hq]; [exists fuel; split; [exact Hf | reflexivity]|].
+    exists (fuel + fuel_items c d items f0)%nat. split; [lia|]. unfold tr_run_items. rewrite run_add.
+    apply run_stuck, quiet_stuck, Hq. }
+  destruct Hrun as (fuel' & Hf' & Heq). rewrite <- Heq in Hok |- *. clear Heq.
+  destruct (spec c d items (init_state f0) []) as [[[per all] stf]|] eqn:Hs.
+  - apply (transfer_ok c d items f0 per all stf Ht Hb Hd Hwf Hh Hsafe Hs fuel' Hf').
+  - destruct (run_incomplete c d items f0 Ht (items_ok c items Hb Hwf Hh) Hdj Hs fuel' Hf') as [A B]. rewrite A, B in Hok. destruct Hok; discriminate.
+Qed.
+
+(* the same with the acceptance premise replaced by a condition on the inputs; then also: the names
+   are the names as sent, and nothing but the entries' own places (an archive: what is below its name)
+   has changed at the destination *)
+Theorem transfer_ready c d items f0 : table_ok c -> tr_bytes_ok items ->
+  stat f0 d = SFound Dir -> Forall tr_comp_ok d -> tr_ready hx c d f0 items -> tr_hdrs_ok ahdr aparse (map fst items) ->
+  forall fuel, (fuel_items c d items f0 <= fuel)%nat ->
+  let cf := run_items fuel c d items f0 in
+  tr_outcome_ok c d f0 items cf /\
+  ss_names (cf_s digest cf) = fold_left tr_add_name (map (tr_key c) (map fst items)) [] /\
+  (forall q, q <> [] ->
+     (forall e, In e (map fst items) -> q <> tr_leaf_of c d e /\ (te_subs e <> [] -> is_prefix (tr_leaf_of c d e) q = false)) ->
+     lookup (st_fs (rs_st (cf_r digest cf))) q = lookup f0 q).
+Proof.
+  intros Ht Hb Hd Hdc Hr Hh fuel Hf. cbv zeta.
+  destruct (ready_accepts hx ahdr aparse c d Hdc f0 items Hd Hr Hh) as (all & stf & Hs & Hsafe & Hfr).
+  pose proof (ready_wf hx c d f0 items Hr) as Hwf.
+  split; [apply (transfer_ok c d items f0 _ all stf Ht Hb Hd Hwf Hh Hsafe Hs fuel Hf)|].
+  rewrite (run_complete c d items f0 _ all stf Ht (items_ok c items Hb Hwf Hh) Hs fuel Hf). cbn [final_conf cf_s cf_r ss_names rs_st].
+  destruct (spec_tree hx ahdr aparse c d f0 items _ all stf Hd Hwf Hh Hsafe Hs) as (_ & A & _). split; [exact A | exact Hfr].
+Qed.
+
 End TransferProofs.
+
+(* ---------- the premises are satisfiable ---------- *)
+(* an injective coding of arbitrary number lists into byte lists (unary, 0-terminated), as a
+   stand-in for a compressor: it meets both codec hypotheses *)
+Definition wit_enc (l : list N) : list byte := flat_map (fun x => repeat 1 (N.to_nat x) ++ [0]) l.
+Fixpoint wit_dec (acc : N) (l : list byte) : list N :=
+  match l with
+  | [] => []
+  | b :: r => if b =? 0 then acc :: wit_dec 0 r else wit_dec (acc + 1) r
+  end.
+
+Lemma wit_dec_ones n : forall acc rest, wit_dec acc (repeat 1 n ++ 0 :: rest) = (acc + N.of_nat n) :: wit_dec 0 rest.
+Proof.
+  induction n as [|n IH]; intros acc rest.
+  - cbn. rewrite N.add_0_r. reflexivity.
+  - cbn [repeat app wit_dec]. change (1 =? 0) with false. cbv iota. rewrite IH. f_equal. lia.
+Qed.
+
+Lemma wit_roundtrip l : wit_dec 0 (wit_enc l) = l.
+Proof.
+  induction l as [|x l IH]; [reflexivity|]. cbn [wit_enc flat_map]. rewrite <- app_assoc. cbn [app].
+  rewrite wit_dec_ones. fold (wit_enc l). rewrite IH, N.add_0_l, N2Nat.id. reflexivity.
+Qed.
+
+Lemma wit_bytes l : bytes_ok (wit_enc l) = true.
+Proof.
+  unfold bytes_ok. apply forallb_forall. intros b Hb. unfold wit_enc in Hb. apply in_flat_map in Hb as (x & _ & Hb).
+  apply in_app_or in Hb as [Hb|[<-|[]]]; [apply repeat_spec in Hb; subst|]; reflexivity.
+Qed.
+
+Definition wit_zcomp (cs : list (list byte)) : list (list byte) := [wit_enc (concat cs)].
+Definition wit_zdecomp (z : list byte) : option (list byte) := Some (wit_dec 0 z).
+Definition wit_zl (d : list byte) : list byte := wit_enc d.
+Definition wit_unzl (z : list byte) : option (list byte) := Some (wit_dec 0 z).
+
+Lemma wit_codec_ok :
+  (forall cs, wit_zdecomp (concat (wit_zcomp cs)) = Some (concat cs)) /\
+  (forall cs, bytes_ok (concat (wit_zcomp cs)) = true) /\
+  (forall d, wit_unzl (wit_zl d) = Some d) /\ (forall d, bytes_ok (wit_zl d) = true).
+Proof.
+  unfold wit_zdecomp, wit_zcomp, wit_unzl, wit_zl. cbn [concat]. repeat split; intros; rewrite ?app_nil_r.
+  - rewrite wit_roundtrip. reflexivity.
+  - apply wit_bytes.
+  - rewrite wit_roundtrip. reflexivity.
+  - apply wit_bytes.
+Qed.
+
+(* ---------- after the negotiation of C14 both ends run with one configuration ---------- *)
+From Trzsz Require Import Model.RelayNeg Proofs.RelayNeg.
+
+Lemma ends_agree_cfg so cc upload : ends_agree so cc -> tr_cfg_of so upload = tr_cfg_of cc upload.
+Proof.
+  unfold ends_agree, tr_cfg_of. intros (A & B & C & _ & E & _ & G & I & _). rewrite A, B, C, E, G, I. reflexivity.
+Qed.
+
+Theorem negotiated_same_cfg g win es wa so cc upload : es = [] \/ same_win win es ->
+  negotiate g win es wa = OutAgreed so cc -> tr_cfg_of so upload = tr_cfg_of cc upload.
+Proof.
+  intros Hes Hn. apply ends_agree_cfg. destruct es as [|e es].
+  - apply (ends_agree_direct _ _ _ _ _ Hn).
+  - destruct Hes as [Hes|Hw]; [discriminate|]. apply (ends_agree_through_relays g win (e :: es) wa so cc); [discriminate | exact Hw | exact Hn].
+Qed.
